@@ -177,8 +177,9 @@ func (t *Transport) Open() error {
 // as there will almost certainly always be a read in progress that we cannot stop and will block,
 // therefore we need a way to bypass the lock.
 func (t *Transport) Close(force bool) error {
-	if !force {
-		t.implLock.Lock()
+	if !force && t.implLock.TryLock() {
+		// (when the lock cannot be had, a read of an earlier session that its close never woke is
+		// still parked holding it: waiting for that read would be waiting for ever)
 		defer t.implLock.Unlock()
 	}
 
